@@ -22,7 +22,11 @@ impl Adapter for HedgeAd {
         "hedge"
     }
     fn gen_cfg(&mut self, rng: &mut Rng, _size: Size) -> Value {
-        json!({"hm": rng.below(4), "max": 1 + rng.below(4), "mode": *rng.pick(&["fixed", "fixed", "par", "dyn", "dyn0"]), "d": 1 + rng.below(3), "lazy": if rng.pct(30) { 1 } else { 0 }, "pre": rng.below(4), "ord": rng.below(2), "blk": if rng.pct(25) { 1 } else { 0 }, "sib": rng.below(2), "max0": rng.below(2)})
+        let mut v = json!({"hm": rng.below(4), "max": 1 + rng.below(4), "mode": *rng.pick(&["fixed", "fixed", "par", "dyn", "dyn0"]), "d": 1 + rng.below(3), "lazy": if rng.pct(30) { 1 } else { 0 }, "pre": rng.below(4), "ord": rng.below(2), "blk": if rng.pct(25) { 1 } else { 0 }, "sib": rng.below(2), "max0": rng.below(2), "ls": 0});
+        if v["lazy"] == 0 && v["sib"] == 0 && rng.pct(40) {
+            v["ls"] = json!(1 + rng.below(2));
+        }
+        v
     }
     fn build(&mut self, cfg: &Value, sim: &mut Sim) {
         // cfg.pre: an earlier, overridden delay setting of another kind (the last one wins); cfg.ord: the
@@ -48,6 +52,18 @@ impl Adapter for HedgeAd {
         };
         if late_max {
             b = b.max_hedged_attempts(max);
+        }
+        // cfg.ls > 0: a listener that takes ls ms when the primary is announced (the paused clock is moved synchronously)
+        let ls = cfg["ls"].as_u64().unwrap_or(0);
+        if ls > 0 {
+            b = b.on_event(tower_resilience_core::events::FnListener::new(move |e: &tower_resilience_hedge::HedgeEvent| {
+                if matches!(e, tower_resilience_hedge::HedgeEvent::PrimaryStarted { .. }) {
+                    let mut f = Box::pin(tokio::time::advance(Duration::from_millis(ls)));
+                    let w = futures::task::noop_waker();
+                    let mut cx = std::task::Context::from_waker(&w);
+                    let _ = std::future::Future::poll(f.as_mut(), &mut cx);
+                }
+            }));
         }
         // (parked handles are replenished while readiness is blocked: no parked mode together with blk)
         let hm = if cfg["blk"].as_u64().unwrap_or(0) == 1 && cfg["hm"].as_u64().unwrap_or(0) == 3 { 0 } else { cfg["hm"].as_u64().unwrap_or(0) };
